@@ -39,6 +39,7 @@ def _build(tier="quick"):
 
     c_common.register(reg, tier)
     c_common.register_unbounded(reg)
+    c_common.register_tensor_sizes(reg)
     from contracts import c_options
 
     c_options.register(reg)
@@ -56,6 +57,7 @@ def _build(tier="quick"):
 
     c_definitions.register(reg)
     c_definitions.register_lincomb(reg)
+    c_definitions.register_table_access(reg)
     from contracts import c_generators
 
     c_generators.register(reg)
